@@ -6,122 +6,21 @@ run of `check.py C20`; the theorems `tie_*` prove each regenerated definition eq
 Floats are exact rationals on both sides (DESIGN §3.1); `isfinite` is `true` on every modelled value, so the ties are
 to the finite-input models (`splitFloat`, `maybeInt`, `isAlmostInt`); the non-finite wrappers (`…X`) stay hand-written.
 Not translated: `snap_scale` (tests object identity, `s_inv_snapped is s_inv`).
+
+The theorems live in OdcGeo/Props/GenC20/*.lean, one compilation unit per tied function or small group; this file only
+imports them all (`lake build OdcGeo.Props.GenC20`).
 -/
-import OdcGeo.Gen.C20
-import OdcGeo.Gen.Tie
-import OdcGeo.Lemmas.GenC20
-import OdcGeo.Props.C20
-
-namespace OdcGeo.C20
-open OdcGeo.Gen
-
-/-! ## ties: generated definition = hand model -/
-
-theorem tie_maybe_zero (x tol : Rat) : Gen.C20.maybe_zero x tol = maybeZero x tol := by
-  tie_auto [Gen.C20.maybe_zero, maybeZero, py_absR_eq]
-
-theorem tie_split_float (x : Rat) : Gen.C20.split_float x = splitFloat x := by
-  tie_auto [Gen.C20.split_float, splitFloat, py_fmod_one]
-
-theorem tie_maybe_int (x tol : Rat) : Gen.C20.maybe_int x tol = maybeInt x tol := by
-  tie_auto [Gen.C20.maybe_int, maybeInt_if, tie_split_float, py_absR_eq, py_trunc_eq]
-
-theorem tie_is_almost_int (x tol : Rat) : Gen.C20.is_almost_int x tol = isAlmostInt x tol := by
-  tie_auto [Gen.C20.is_almost_int, isAlmostInt, py_fmod_one, py_absR_eq]
-
-theorem tie_clamp (x lo up : Rat) : Gen.C20.clamp x lo up = clamp x lo up := by
-  tie_auto [Gen.C20.clamp, clamp]
-
-theorem tie_align_up_pow2 (x : Int) : Gen.C20.align_up_pow2 x = .ok (alignUpPow2 x) := by
-  by_cases h : x ≤ 0
-  · simp [Gen.C20.align_up_pow2, alignUpPow2, h]
-  · simp [Gen.C20.align_up_pow2, alignUpPow2, h, py_ceilLog2_eq x (by omega), py_ipow_two_nat]
-
-theorem tie_align_down_pow2 (x : Int) : Gen.C20.align_down_pow2 x = .ok (alignDownPow2 x) := by
-  tie_auto [Gen.C20.align_down_pow2, alignDownPow2, tie_align_up_pow2]
-
-theorem tie_snap_edge_pos (x0 x1 res tol : Rat) :
-    Gen.C20.snap_edge_pos x0 x1 res tol = snapEdgePos x0 x1 res tol := by
-  tie_auto [Gen.C20.snap_edge_pos, snapEdgePos, tie_maybe_int]
-
-theorem tie_snap_edge (x0 x1 res tol : Rat) :
-    Gen.C20.snap_edge x0 x1 res tol = snapEdge x0 x1 res tol := by
-  tie_auto [Gen.C20.snap_edge, snapEdge, tie_snap_edge_pos]
-
-theorem tie_snap_grid (x0 x1 res : Rat) (off_pix : Option Rat) (tol : Rat) :
-    Gen.C20.snap_grid x0 x1 res off_pix tol = snapGrid x0 x1 res off_pix tol := by
-  cases off_pix <;> tie_auto [Gen.C20.snap_grid, snapGrid, tie_snap_edge, tie_maybe_int, py_absR_eq]
-
-theorem tie_bin1d_init (sz origin : Rat) (direction : Int) :
-    Gen.C20.bin1d_init sz origin direction = Bin1D.mk? sz origin direction := by
-  tie_auto [Gen.C20.bin1d_init, Bin1D.mk?]
-
-theorem tie_bin1d_getitem (b : Bin1D) (idx : Int) : Gen.C20.bin1d_getitem b idx = b.interval idx := by
-  tie_auto [Gen.C20.bin1d_getitem, Bin1D.interval]
-
-/-- `Bin1D.bin`; `sz > 0` is the class invariant established by `__init__` (`tie_bin1d_init`) -/
-theorem tie_bin1d_bin (b : Bin1D) (x : Rat) (h : 0 < b.sz) : Gen.C20.bin1d_bin b x = .ok (b.bin x) := by
-  have h0 : b.sz ≠ 0 := ne_of_gt h
-  tie_auto [Gen.C20.bin1d_bin, Bin1D.bin]
-
-theorem tie_bin1d_from_sample_bin (idx : Int) (bin : Rat × Rat) (direction : Int) :
-    Gen.C20.bin1d_from_sample_bin idx bin direction = Bin1D.fromSampleBin idx bin.1 bin.2 direction := by
-  tie_auto [Gen.C20.bin1d_from_sample_bin, Bin1D.fromSampleBin, tie_bin1d_init]
-
-/-! ## headline theorems of `Props/C20.lean`, transferred to the regenerated definitions -/
-
-/-- `split_float_sum_range_whole` for the source `split_float` -/
-theorem gen_split_float_sum_range_whole (x : Rat) :
-    (∃ k : Int, (Gen.C20.split_float x).1 = (k : Rat)) ∧
-      (Gen.C20.split_float x).1 + (Gen.C20.split_float x).2 = x ∧
-      -(1 / 2) ≤ (Gen.C20.split_float x).2 ∧ (Gen.C20.split_float x).2 ≤ 1 / 2 := by
-  rw [tie_split_float]; exact split_float_sum_range_whole x
-
-/-- `is_almost_int_iff` for the source `is_almost_int` -/
-theorem gen_is_almost_int_iff (x tol : Rat) :
-    Gen.C20.is_almost_int x tol = true ↔ ∃ n : Int, |x - n| < tol := by
-  rw [tie_is_almost_int]; exact is_almost_int_iff x tol
-
-/-- `align_up_pow2_least` for the source `align_up_pow2`: no exception, least power of two `≥ x` -/
-theorem gen_align_up_pow2_least (x : Int) (hx : 1 ≤ x) :
-    ∃ y, Gen.C20.align_up_pow2 x = .ok y ∧
-      ∃ n : Nat, y = 2 ^ n ∧ x ≤ 2 ^ n ∧ ∀ m : Nat, x ≤ 2 ^ m → (2 : Int) ^ n ≤ 2 ^ m :=
-  ⟨_, tie_align_up_pow2 x, align_up_pow2_least x hx⟩
-
-/-- `align_down_pow2_greatest` for the source `align_down_pow2` -/
-theorem gen_align_down_pow2_greatest (x : Int) (hx : 1 ≤ x) :
-    ∃ y, Gen.C20.align_down_pow2 x = .ok y ∧
-      ∃ n : Nat, y = 2 ^ n ∧ (2 : Int) ^ n ≤ x ∧ ∀ m : Nat, (2 : Int) ^ m ≤ x → (2 : Int) ^ m ≤ 2 ^ n :=
-  ⟨_, tie_align_down_pow2 x, align_down_pow2_greatest x hx⟩
-
-/-- `snap_grid_n_pos` for the source `snap_grid` -/
-theorem gen_snap_grid_n_pos {x0 x1 res tol : Rat} (off : Option Rat) (hr : res ≠ 0) (hx : x0 ≤ x1)
-    (hop : ∀ op, off = some op → 0 ≤ op ∧ op < 1) (ht : 0 ≤ tol) (ht2 : tol < 1 / 2) :
-    ∃ tx nx, Gen.C20.snap_grid x0 x1 res off tol = .ok (tx, nx) ∧ 1 ≤ nx := by
-  simp only [tie_snap_grid]; exact snap_grid_n_pos off hr hx hop ht ht2
-
-/-- `snap_grid_cover` for the source `snap_grid` -/
-theorem gen_snap_grid_cover {x0 x1 res tol tx : Rat} {nx : Int} (off : Option Rat) (hr : res ≠ 0)
-    (hx : x0 ≤ x1) (hop : ∀ op, off = some op → 0 ≤ op ∧ op < 1) (ht : 0 ≤ tol) (ht2 : tol < 1 / 2)
-    (h : Gen.C20.snap_grid x0 x1 res off tol = .ok (tx, nx)) :
-    gridLo res tx nx ≤ x0 + tol * |res| ∧ x1 - tol * |res| ≤ gridHi res tx nx := by
-  rw [tie_snap_grid] at h; exact snap_grid_cover off hr hx hop ht ht2 h
-
-/-- `bin1d_point_in_bin` for the source `Bin1D.bin` / `Bin1D.__getitem__` -/
-theorem gen_bin1d_point_in_bin (b : Bin1D) (hsz : 0 < b.sz) (hd : b.direction = 1 ∨ b.direction = -1) (x : Rat) :
-    ∃ i, Gen.C20.bin1d_bin b x = .ok i ∧
-      (Gen.C20.bin1d_getitem b i).1 ≤ x ∧ x < (Gen.C20.bin1d_getitem b i).2 := by
-  refine ⟨_, tie_bin1d_bin b x hsz, ?_⟩
-  rw [tie_bin1d_getitem]; exact bin1d_point_in_bin b hsz hd x
-
-/-- `bin1d_from_sample_bin` for the source `Bin1D.from_sample_bin` -/
-theorem gen_bin1d_from_sample_bin (b : Bin1D) (hsz : 0 < b.sz) (hd : b.direction = 1 ∨ b.direction = -1) (idx : Int) :
-    Gen.C20.bin1d_from_sample_bin idx (Gen.C20.bin1d_getitem b idx) b.direction = .ok b := by
-  rw [tie_bin1d_from_sample_bin, tie_bin1d_getitem]; exact bin1d_from_sample_bin b hsz hd idx
-
-/-- `bin1d_rejects` for the source `Bin1D.__init__` -/
-theorem gen_bin1d_rejects (sz origin : Rat) (d : Int) (h : ¬ (d = -1 ∨ d = 1) ∨ ¬ sz > 0) :
-    Gen.C20.bin1d_init sz origin d = .error .assertion := by
-  rw [tie_bin1d_init]; exact bin1d_rejects sz origin d h
-
-end OdcGeo.C20
+import OdcGeo.Props.GenC20.MaybeZero
+import OdcGeo.Props.GenC20.SplitFloat
+import OdcGeo.Props.GenC20.MaybeInt
+import OdcGeo.Props.GenC20.IsAlmostInt
+import OdcGeo.Props.GenC20.Clamp
+import OdcGeo.Props.GenC20.AlignUpPow2
+import OdcGeo.Props.GenC20.AlignDownPow2
+import OdcGeo.Props.GenC20.SnapEdgePos
+import OdcGeo.Props.GenC20.SnapEdge
+import OdcGeo.Props.GenC20.SnapGrid
+import OdcGeo.Props.GenC20.Bin1dInit
+import OdcGeo.Props.GenC20.Bin1dGetitem
+import OdcGeo.Props.GenC20.Bin1dBin
+import OdcGeo.Props.GenC20.Bin1dFromSampleBin
